@@ -732,4 +732,6 @@ func TestEnum(t *testing.T) {
 	})
 }
 
-func TestReplay(t *testing.T) { core.Replay(t, account, substitute, anycast, shard, adnl) }
+func TestReplay(t *testing.T) {
+	core.Replay(t, account, substitute, anycast, shard, adnl, concurrentCheck)
+}
